@@ -101,3 +101,52 @@ proof fn lemma_abs_entries_append<'a>(a: Seq<PendingEntry<'a>>, b: Seq<PendingEn
 
 /// scalar_is_nullish as a function of text and style (its table is std string comparison, not interpreted here)
 uninterp spec fn spec_nullish(value: Seq<char>, style: ScalarStyle) -> bool;
+
+// ---- streaming map access (MA): representation invariant and merge flush order ----
+
+spec fn pending_ok(p: Seq<PendingEntry<'_>>) -> bool {
+    forall|i: int| 0 <= i < p.len() ==> keynode_wf((#[trigger] p[i]).key) && keynode_events(p[i].key).len() <= i32::MAX
+}
+
+spec fn batches_ok(b: Seq<Vec<PendingEntry<'_>>>) -> bool {
+    forall|j: int| 0 <= j < b.len() ==> pending_ok((#[trigger] b[j])@)
+}
+
+/// index of the newest (last) non-empty merge batch, or -1
+spec fn newest_nonempty(b: Seq<Vec<PendingEntry<'_>>>) -> int
+    decreases b.len()
+{
+    if b.len() == 0 { -1 } else if b.last()@.len() > 0 { b.len() - 1 } else { newest_nonempty(b.drop_last()) }
+}
+
+spec fn ma_inv_parts(pending: Seq<PendingEntry<'_>>, merge_stack: Seq<Vec<PendingEntry<'_>>>, rest: Seq<Ev<'_>>) -> bool {
+    pending_ok(pending) && batches_ok(merge_stack) && rest.len() <= i32::MAX
+}
+
+proof fn lemma_pending_concat(a: Seq<PendingEntry<'_>>, b: Seq<PendingEntry<'_>>)
+    requires pending_ok(a), pending_ok(b),
+    ensures pending_ok(a + b),
+{
+    assert forall|i: int| 0 <= i < (a + b).len() implies keynode_wf((#[trigger] (a + b)[i]).key) && keynode_events((a + b)[i].key).len() <= i32::MAX by {
+        if i < a.len() { assert((a + b)[i] == a[i]); } else { assert((a + b)[i] == b[i - a.len()]); }
+    }
+}
+
+proof fn lemma_newest_nonempty(b: Seq<Vec<PendingEntry<'_>>>)
+    ensures -1 <= newest_nonempty(b) < b.len(), newest_nonempty(b) >= 0 ==> b[newest_nonempty(b)]@.len() > 0,
+    decreases b.len(),
+{
+    if b.len() > 0 && b.last()@.len() == 0 { lemma_newest_nonempty(b.drop_last()); }
+}
+
+proof fn lemma_flush_step(ms0: Seq<Vec<PendingEntry<'_>>>, p0: Seq<PendingEntry<'_>>)
+    requires batches_ok(ms0), pending_ok(p0), newest_nonempty(ms0) >= 0,
+    ensures pending_ok(ms0[newest_nonempty(ms0)]@ + p0), batches_ok(ms0.take(newest_nonempty(ms0))),
+{
+    lemma_newest_nonempty(ms0);
+    let k = newest_nonempty(ms0);
+    lemma_pending_concat(ms0[k]@, p0);
+    assert forall|j: int| 0 <= j < ms0.take(k).len() implies pending_ok((#[trigger] ms0.take(k)[j])@) by {
+        assert(ms0.take(k)[j] == ms0[j]);
+    }
+}
